@@ -18,10 +18,7 @@ ASSUMPTIONS = [
 ]
 DECIDING_COUNTERS = ["bytes_roundtrip", "codepoints_checked", "strings_checked", "asm_programs"]
 
-# frozen transcription of bytes 0x7F..0xBF (0x80..0x9F map to the C1 controls of the same number)
-FROZEN_7F_BF = ("■" + "".join(chr(c) for c in range(0x80, 0xA0))
-                + "¶┴♥┐╡├└═╤♠┌┬╨↓┼║┤←╬↑♣─╫│♦┘╪╥╧╞→▓")
-assert len(FROZEN_7F_BF) == 0xC0 - 0x7F
+from vlib.bk_frozen import FROZEN_7F_BF
 
 
 def plan(tier, seed):
